@@ -497,7 +497,7 @@ KNOBS: Dict[str, List[Tuple[str, List[Any]]]] = {
         ("graph.update", [{"mode": "additive", "alpha": 0.02}, {"mode": "proportional", "alpha": 0.5}, {"mode": "additive", "alpha": 0.7, "clamp_min": -0.5, "clamp_max": 0.5}]),
         ("graph.decay", [{"half_life_turns": 1, "floor": 0.0}, {"half_life_turns": 2, "floor": 0.05}, {"half_life_turns": 200}]),
         ("graph.merge", [{"enabled": True, "min_size": 2, "min_avg_w": 0.0}, {"enabled": True}]),
-        ("graph.split", [{"enabled": True, "weak_edge_thresh": 0.5}, {"enabled": True}]),
+        ("graph.split", [{"enabled": True, "weak_edge_thresh": 0.0}, {"enabled": True}]),
         ("graph.promotion", [{"enabled": True}, {"enabled": True, "label_mode": "concat_k", "topk_label_ids": 2}]),
     ],
     "hybrid": [
